@@ -143,7 +143,14 @@ static void app_hex(char **buf, size_t *len, size_t *cap, const uint8_t *d, size
 static void env_apply(char *text);
 
 // fire scheduled environment events, then decide whether this transfer faults
+static unsigned long op_transfers;   // reset at the start of every operation
 static int pre_transfer(void) {
+  if (++op_transfers > 300000) {
+    printf("!C08 more than 300000 transfers in one operation (endless loop)\n");
+    fflush(stdout);
+    fprintf(stderr, "runtime error: more than 300000 SPI transfers in one operation (endless loop)\n");
+    abort();
+  }
   for (int i = 0; i < nsched; i++) {
     if (sched[i].at == xfer) {
       char tmp[700];
@@ -176,7 +183,7 @@ static int enter_spi(void *spi_device) {
   return saved;
 }
 
-static void contract(int reg, size_t n, bool buffer) {
+static bool contract(int reg, size_t n, bool buffer) {
   bool ok = reg >= 0 && reg <= 0x70;
   if (buffer) {
     ok = ok && n <= 2047;
@@ -188,10 +195,14 @@ static void contract(int reg, size_t n, bool buffer) {
     chip.contract++;
     printf("!C19 contract reg=%x n=%zu buffer=%d\n", reg, n, (int) buffer);
   }
+  return ok;
 }
 
 static int sx127x_spi_read_registers_impl(int reg, void *spi_device, size_t data_length, uint32_t *result) {
-  contract(reg, data_length, false);
+  if (!contract(reg, data_length, false) && (data_length == 0 || data_length > 4)) {
+    SPI("R?/bad=!ffffffff;");   // what the bundled backends do with such a request: refuse it, no transaction
+    return -1;
+  }
   int code = pre_transfer();
   char tmp[64];
   snprintf(tmp, sizeof tmp, "R%x/%zu=", reg, data_length);
@@ -247,7 +258,10 @@ int sx127x_spi_read_buffer(int reg, uint8_t *buffer, size_t buffer_length, void 
 }
 
 static int sx127x_spi_write_register_impl(int reg, const uint8_t *data, size_t data_length, void *spi_device) {
-  contract(reg, data_length, false);
+  if (!contract(reg, data_length, false) && (data_length == 0 || data_length > 4)) {
+    SPI("W?:bad!ffffffff;");
+    return -1;
+  }
   int code = pre_transfer();
   char tmp[64];
   snprintf(tmp, sizeof tmp, "W%x:", reg);
@@ -850,6 +864,7 @@ int main(int argc, char **argv) {
     spilog_len = 0;
     cblog_len = 0;
     if (spilog) spilog[0] = 0;
+    op_transfers = 0;
     if (cblog) cblog[0] = 0;
     char out[256];
 #ifdef SXH_SANITIZE
